@@ -92,11 +92,11 @@ class ReplicaCheck:
         # TLC-generated schedules
         beh = os.path.join(work, "schedules.ndjson")
         nsch, _ = vlib.gen_behaviours(work, self.spec, "GEN_Replica.cfg", beh, mode="simulate",
-                                      num={"quick": 3, "thorough": 40}[tier], depth=46, seed=seed, siblings=1)
+                                      num={"quick": 3, "thorough": 16}[tier], depth=46, seed=seed, siblings=1)
         # depth-1 convention of gen_behaviours does not matter here: schedules print when Done
         log(f"[gen] {nsch} TLC-generated schedules")
-        per_rec_random = {"quick": 1, "thorough": 6}[tier]
-        max_recs = {"quick": 40, "thorough": 400}[tier]
+        per_rec_random = {"quick": 1, "thorough": 3}[tier]
+        max_recs = {"quick": 40, "thorough": 160}[tier]
         if tier == "quick":
             # at most two histories per driver
             seen, keep = {}, []
